@@ -1,0 +1,61 @@
+//go:build verif
+
+package retry
+
+// Contracts for gocv (contract-based deductive verification; see /verif/DESIGN.md).
+// Comment-only file: with the build tag off it is not compiled at all.
+
+//@ package retry
+//@ import http "net/http"
+//@ import time "time"
+//@
+//@ callback Predicate
+//@   modifies nothing
+//@ callback Backoff
+//@   modifies nothing
+//@ funcfield GenericPolicy.Retryable Predicate
+//@ funcfield GenericPolicy.Backoff Backoff
+//@
+//@ func (*GenericPolicy).Retry
+//@   requires [wf] p.Retryable != nil && p.Backoff != nil
+//@   ensures [C17:maxretry] attempt >= p.MaxRetry ==> result0 == -1 && result1 == nil
+//@   ensures [C17:clamp] result1 == nil && result0 >= 0 && p.MinWait <= p.MaxWait ==> p.MinWait <= result0 && result0 <= p.MaxWait
+//@   ensures [C17:error-means-no-retry] result1 != nil ==> result0 < 0
+//@
+//@ import io "io"
+//@ import context "context"
+//@ pure policyMax(p Policy) int
+//@
+//@ iface Policy.Retry params attempt, resp, err
+//@   ensures [stops] policyMax(self) >= 0 && attempt >= policyMax(self) ==> result0 < 0 || result1 != nil
+//@   modifies nothing
+//@
+//@ callback GetBody
+//@   ensures result1 == nil ==> result0 != nil && !consumedBody(result0)
+//@   modifies alloc
+//@ funcfield http.Request.GetBody GetBody
+//@
+//@ callback PolicyFactory
+//@   ensures result != nil
+//@   modifies alloc
+//@ funcfield Transport.Policy PolicyFactory
+//@ axiom [default-policy-set] DefaultPolicy != nil
+//@
+//@ func (*Transport).roundTrip
+//@   requires [C17:resend-with-fresh-body] req != nil && (req.Body == nil || !consumedBody(req.Body))
+//@   ensures trips(req) == old(trips(req)) + 1
+//@   ensures old(req.Body) != nil ==> consumedBody(old(req.Body))
+//@   ensures forall b io.ReadCloser :: b != old(req.Body) ==> consumedBody(b) == old(consumedBody(b))
+//@   ensures result1 == nil ==> result0 != nil && result0.Body != nil
+//@   modifies ghost.trips, ghost.consumedBody, alloc
+//@
+//@ func (*Transport).RoundTrip
+//@   requires [wf] req != nil && (req.Body == nil || !consumedBody(req.Body))
+//@   loop 0 invariant [count] policyMax(policy) >= 0 ==> attempt >= 0 && trips(req) == old(trips(req)) + attempt
+//@   loop 0 invariant [C17:bounded] policyMax(policy) >= 0 ==> attempt <= policyMax(policy)
+//@   loop 0 invariant [C17:fresh] req.Body == nil || !consumedBody(req.Body)
+//@   loop 0 invariant [C17:one-shot] old(req.Body) != nil && old(req.GetBody) == nil ==> attempt == 0 && req.Body == old(req.Body) && req.GetBody == nil && trips(req) == old(trips(req))
+//@   loop 0 invariant [C17:not-cancelled] !recvd(ctxDone(ctx))
+//@   ensures [C17:attempts-bounded] policyMax(policy) >= 0 ==> trips(req) <= old(trips(req)) + policyMax(policy) + 1
+//@   ensures [C17:one-shot-not-resent] old(req.Body) != nil && old(req.GetBody) == nil ==> trips(req) <= old(trips(req)) + 1
+//@   ensures [C17:no-trip-after-cancel] recvd(ctxDone(ctx)) ==> result0 == nil && result1 != nil
